@@ -4,6 +4,13 @@ CHECKS = {
             "real": ["src/tbb scheduler: arena, arena_slot, mailbox, task_stream, task_dispatcher, threading_control, market, private_server (RML), task_group, parallel_for, partitioners"]},
     "C09": {"scenarios": ["c09"], "quick_budget_s": 45, "thorough_budget_s": 600,
             "real": ["include/oneapi/tbb/concurrent_queue.h, detail/_concurrent_queue_base.h, src/tbb/concurrent_bounded_queue.cpp, concurrent_monitor"]},
+    "C05": {"scenarios": ["c05"], "quick_budget_s": 50, "thorough_budget_s": 900,
+            "real": ["include/oneapi/tbb/parallel_for.h, partitioner.h, blocked_range*.h, blocked_nd_range.h, parallel_for_each.h, parallel_invoke.h + scheduler"],
+            "assumptions": ["the pure-input clause 'for every (begin,end,grain)' is sampled with corner-biased sizes (incl. > 2^24, > 2^32, near 2^64 with chunk-level accounting), not decided"]},
+    "C06": {"scenarios": ["c06"], "quick_budget_s": 50, "thorough_budget_s": 900,
+            "real": ["include/oneapi/tbb/parallel_reduce.h, parallel_scan.h, parallel_sort.h + scheduler"]},
+    "C07": {"scenarios": ["c07"], "quick_budget_s": 50, "thorough_budget_s": 900,
+            "real": ["include/oneapi/tbb/parallel_pipeline.h, src/tbb/parallel_pipeline.cpp + scheduler"]},
     "C08": {"scenarios": ["c08"], "quick_budget_s": 45, "thorough_budget_s": 600,
             "real": ["include/oneapi/tbb/{spin,queuing,}_mutex.h, {spin_rw,queuing_rw,rw}_mutex.h, src/tbb/queuing_rw_mutex.cpp, rtm_mutex.cpp, rtm_rw_mutex.cpp (fallback paths)"],
             "assumptions": ["speculative (RTM) variants run their non-transactional fallback paths only"]},
@@ -33,6 +40,15 @@ ASSUMPTIONS = [
 NOT_APPLICABLE = {}
 
 MANIFEST_TEXT = {
+    "C05": {"level": "Seeded search over steal patterns (the simulated scheduler decides which subtasks are stolen) of parallel_for over instrumented blocked_range (all four partitioners, affinity replay, sizes 0..4096 with per-element counters, huge ranges > 2^24 / > 2^32 / near 2^64 with chunk-level accounting), 2d/3d/nd ranges, integer overloads, parallel_for_each (forward / random-access iterators, feeder) and parallel_invoke; "
+                     "oracle: visit counters, chunks non-empty / disjoint / covering / in bounds, indivisible ranges never split, simple_partitioner chunk-size bounds.",
+            "note": "the (begin,end,grain) quantifier is a pure-input clause: sampled with corner-biased values, not decided; schedule-dependent part decided by seeded search."},
+    "C06": {"level": "Seeded search over schedules of parallel_reduce (Body and functional form, free-monoid value = operand sequence, so any reorder/loss/duplication shows), parallel_deterministic_reduce (non-associative floating point, compared bit-wise with an explicit split-tree recursion, across repeated runs and arena sizes), "
+                     "parallel_scan (final pass exactly once with the exact incoming prefix) and parallel_sort (sorted permutation for sorted/reverse/one-inversion/many-equal/random inputs around the 500-element cutoff); split/join discipline of reduction bodies checked through body identities.",
+            "note": "inputs are sampled; schedules are sampled."},
+    "C07": {"level": "Seeded search over schedules of parallel_pipeline with 2-5 filters of random modes, 1-6 tokens, 0-40 items and per-(item,stage) delays drawn from the seed; "
+                     "oracle: each item through each filter once and in stage order, common order of all serial_in_order filters, no overlap in serial filters, live items <= token limit at every emission, return only after end of input and retirement of all items.",
+            "note": "delays are simulated schedule points, not wall-clock time."},
     "C01": {"level": "Seeded search over schedules of the REAL scheduler (arena, deque, mailbox, task streams, dispatcher, RML workers as simulated threads) running generated task trees "
                      "(task_group run/run_and_wait/cancel, tasks submitting into their own group, parallel_for with all four partitioners incl. replayed affinity, nested task_arena::execute incl. delegation, enqueue, isolate) "
                      "on machines of 1-8 CPUs; oracle: per-unit started/finished counters, completeness and visibility at every wait return, functor construction/destruction balance, deadlock/livelock detection; "
